@@ -309,7 +309,7 @@ def compare(
 CONSTANTS_VERBATIM = '''\
 Magic: int = constant_int(value=42)
 
-Ratio: float = constant_float(value=0.5)
+Proportion: float = constant_float(value=0.5)
 
 Enabled: bool = constant_bool(value=True)
 
